@@ -621,7 +621,8 @@ def cast_str_elem(val, base):
     s = SStr.lift(val if not isinstance(val, (Z, BV)) else to_str(val))
     if s is None:
         raise Unsupported('cannot store %r into a string field' % type(val).__name__)
-    return SStr.mk(s.items[:n], base.kind == 'S')
+    r = SStr.mk(s.items[:n], base.kind == 'S')
+    return np.bytes_(r) if isinstance(r, bytes) else r
 
 
 def cast_str_array(arr, base):
